@@ -11,7 +11,7 @@ import Saltpack.Model.Sign
 import Saltpack.Proofs.ChunkPlan
 
 namespace Saltpack.Proofs
-open Saltpack Saltpack.Spec
+open Saltpack Saltpack.Spec Msgpack
 
 /-- the code's constants are the specification's -/
 theorem spec_constants :
@@ -25,41 +25,430 @@ theorem spec_constants :
     Gen.c_sp_signcryptionBoxKeyIdentifierContext = sCtxBoxKeyIdentifier ∧
     Gen.c_sp_signcryptionSymmetricKeyContext = sCtxSymmetricKey ∧
     blockSize = 1048576 ∧ sigBlockSize = 1048576 := by
-  sorry
+  -- the kernel evaluates the string literals' UTF-8 bytes (`decide` alone gets
+  -- stuck on `String.toUTF8`)
+  decide +kernel
+
+/-! ### the constants, as rewrite rules (specification side → code side) -/
+
+theorem c_format : sFormatName = Gen.c_sp_FormatName := by decide +kernel
+theorem c_sigAtt : sSigAttached = Gen.c_sp_signatureAttachedString := by decide +kernel
+theorem c_sigDet : sSigDetached = Gen.c_sp_signatureDetachedString := by decide +kernel
+theorem c_sigEnc : sSigEncrypted = Gen.c_sp_signatureEncryptedString := by decide +kernel
+theorem c_senderKey : sNonceSenderKey = Nonce.senderKeySecretBox := by decide +kernel
+theorem c_payloadV1 : sNoncePayloadKeyV1 = Nonce.payloadKeyBoxV1 := by decide +kernel
+theorem c_derived : sNonceDerived = Nonce.derivedSharedKey := by decide +kernel
+theorem c_ctxBox : sCtxBoxKeyIdentifier = Gen.c_sp_signcryptionBoxKeyIdentifierContext := by decide +kernel
+theorem c_ctxSym : sCtxSymmetricKey = Gen.c_sp_signcryptionSymmetricKeyContext := by decide +kernel
+theorem lit_recip : Gen.lit_sp_nonceForPayloadKeyBoxV2_0 = strBytes "saltpack_recipsb" := by decide +kernel
+theorem lit_chunk : Gen.lit_sp_nonceForChunkSecretBox_0 = strBytes "saltpack_ploadsb" := by decide +kernel
+theorem c_recip (i : Nat) : sNonceRecip i = Nonce.payloadKeyBoxV2 i := by
+  show _ ++ _ = _ ++ _
+  rw [lit_recip]
+theorem c_chunk (i : Nat) : sNonceChunk i = Nonce.chunkSecretBox i := by
+  show _ ++ _ = _ ++ _
+  rw [lit_chunk]
+theorem c_hashNonce (hh : Bytes) (f : Bool) (i : Nat) : sHashNonce hh f i = Nonce.hashFlagCounter hh f i := rfl
+theorem c_final (f : Bool) : sFinal f = finalByte f := rfl
 
 theorem spec_nonces (i : Nat) (hh : Bytes) (f : Bool) :
     Nonce.payloadKeyBoxV2 i = sNonceRecip i ∧ Nonce.chunkSecretBox i = sNonceChunk i ∧
-    Nonce.hashFlagCounter hh f i = sHashNonce hh f i ∧ finalByte f = sFinal f := by
-  sorry
+    Nonce.hashFlagCounter hh f i = sHashNonce hh f i ∧ finalByte f = sFinal f :=
+  ⟨(c_recip i).symm, (c_chunk i).symm, rfl, rfl⟩
 
 def layoutOf (v : Version) : Nat := if v = v1 then 1 else 2
+
+theorem layoutOf_v1 : layoutOf v1 = 1 := rfl
+theorem layoutOf_v2 : layoutOf v2 = 2 := rfl
+
+theorem knownVersion_of' {v : Version} (hv : v = v1 ∨ v = v2) : knownVersion v = true := by
+  rcases hv with rfl | rfl <;> decide
+
+theorem versionVal_layoutOf (v : Version) (hv : v = v1 ∨ v = v2) :
+    versionVal (layoutOf v) {} = v.toVal := by
+  rcases hv with rfl | rfl <;> rfl
+
+/-! ### encryption -/
+
+theorem encRecipient_eq (P : Prims) (v : Version) (hv : v = v1 ∨ v = v2) (eph pk : Bytes) (i : Nat)
+    (r : Encrypt.Recipient) (n : Bytes) (hn : Nonce.payloadKeyBox v i = .ok n) :
+    encRecipientVal P (layoutOf v) {} eph pk i r =
+      RecvKeys.toVal ⟨if r.hidden then none else some r.pub, P.box eph r.pub n pk⟩ := by
+  rcases hv with rfl | rfl
+  · simp only [Nonce.payloadKeyBox, show v1.major = 1 from rfl, if_true, Except.ok.injEq] at hn
+    subst hn
+    simp only [encRecipientVal, layoutOf_v1, if_true, c_payloadV1, RecvKeys.toVal, List.append_nil]
+    cases r.hidden <;> rfl
+  · simp only [Nonce.payloadKeyBox, show v2.major = 2 from rfl, show ¬ ((2 : Int) = 1) by decide,
+      if_true, if_false, Except.ok.injEq] at hn
+    subst hn
+    simp only [encRecipientVal, layoutOf_v2, show ¬ ((2 : Nat) = 1) by decide, if_false, c_recip,
+      RecvKeys.toVal, List.append_nil]
+    cases r.hidden <;> rfl
+
+theorem encReceivers_eq (P : Prims) (v : Version) (hv : v = v1 ∨ v = v2) (eph pk : Bytes) :
+    ∀ (rs : List Encrypt.Recipient) (i : Nat) (es : List RecvKeys),
+      Encrypt.receiverEntries P v eph pk rs i = .ok es →
+      es.map RecvKeys.toVal =
+        (rs.zipIdx i).map (fun x => encRecipientVal P (layoutOf v) {} eph pk x.2 x.1) := by
+  intro rs
+  induction rs with
+  | nil =>
+    intro i es h
+    simp only [Encrypt.receiverEntries, Except.ok.injEq] at h
+    subst h
+    rfl
+  | cons r rs ih =>
+    intro i es h
+    simp only [Encrypt.receiverEntries] at h
+    split at h
+    · rename_i n es' hn hes
+      cases h
+      simp only [List.map_cons, List.zipIdx_cons, ih (i + 1) es' hes,
+        encRecipient_eq P v hv eph pk i r n hn]
+    · cases h
+    · cases h
+
+theorem encMacKey_eq (P : Prims) (v : Version) (hv : v = v1 ∨ v = v2) (s e pub hh : Bytes) (i : Nat)
+    (k : Bytes) (hk : Encrypt.macKeySender P v i s e pub hh = .ok k) :
+    k = encMacKey P (layoutOf v) s e pub hh i := by
+  rcases hv with rfl | rfl
+  · simp only [Encrypt.macKeySender, if_true, Except.ok.injEq] at hk
+    subst hk
+    simp only [encMacKey, layoutOf_v1, if_true, macKeySingle, Nonce.macKeyBoxV1]
+  · simp only [Encrypt.macKeySender, if_neg v2_ne_v1, if_true, Except.ok.injEq] at hk
+    subst hk
+    simp only [encMacKey, layoutOf_v2, show ¬ ((2 : Nat) = 1) by decide, if_false, macKeySingle,
+      Nonce.macKeyBoxV2, c_hashNonce, sum512Truncate256]
+
+theorem encMacKeys_eq (P : Prims) (v : Version) (hv : v = v1 ∨ v = v2) (s e hh : Bytes) :
+    ∀ (rs : List Encrypt.Recipient) (i : Nat) (mks : List Bytes),
+      Encrypt.macKeysSender P v s e hh rs i = .ok mks →
+      mks = (rs.zipIdx i).map (fun x => encMacKey P (layoutOf v) s e x.1.pub hh x.2) := by
+  intro rs
+  induction rs with
+  | nil =>
+    intro i mks h
+    simp only [Encrypt.macKeysSender, Except.ok.injEq] at h
+    subst h
+    rfl
+  | cons r rs ih =>
+    intro i mks h
+    simp only [Encrypt.macKeysSender] at h
+    split at h
+    · rename_i k ks hk hks
+      cases h
+      simp only [List.map_cons, List.zipIdx_cons, ← ih (i + 1) ks hks,
+        ← encMacKey_eq P v hv s e r.pub hh i k hk]
+    · cases h
+    · cases h
+
+theorem encPacket_eq (P : Prims) (v : Version) (hv : v = v1 ∨ v = v2) (pk hh : Bytes)
+    (mks : List Bytes) (hmks : mks ≠ []) (i : Nat) (c : Bytes) (f : Bool) (b : EncBlock) (val : Val)
+    (hb : Encrypt.blockStruct P v pk hh mks i c f = .ok b)
+    (hval : encBlockVal v b.auths b.ct b.final = .ok val) :
+    Msgpack.encode val = encPacket P (layoutOf v) {} pk hh mks i c f := by
+  have hne : ∀ g : Bytes → Bytes, (mks.map g).isEmpty = false := by
+    intro g
+    cases mks with
+    | nil => exact absurd rfl hmks
+    | cons a l => rfl
+  simp only [Encrypt.blockStruct] at hb
+  split at hb
+  · cases hb
+  · rcases hv with rfl | rfl
+    · simp only [payloadHash, show v1.major = 1 from rfl, if_true, Except.ok.injEq] at hb
+      subst hb
+      simp only [encBlockVal, hne, if_true, Bool.false_eq_true, if_false, Except.ok.injEq] at hval
+      subst hval
+      simp only [encPacket, layoutOf_v1, if_true, c_chunk, List.append_nil, List.map_map,
+        payloadAuthenticator]
+      rfl
+    · simp only [payloadHash, show v2.major = 2 from rfl, show ¬ ((2 : Int) = 1) by decide,
+        if_true, if_false, Except.ok.injEq] at hb
+      subst hb
+      simp only [encBlockVal, hne, if_neg v2_ne_v1, if_true, Bool.false_eq_true, if_false,
+        Except.ok.injEq] at hval
+      subst hval
+      simp only [encPacket, layoutOf_v2, show ¬ ((2 : Nat) = 1) by decide, if_false, c_chunk,
+        c_final, List.append_nil, List.map_map, payloadAuthenticator]
+      rfl
+
+theorem encBlocks_eq (P : Prims) (v : Version) (hv : v = v1 ∨ v = v2) (pk hh : Bytes)
+    (mks : List Bytes) (hmks : mks ≠ []) :
+    ∀ (pl : List (Bytes × Bool)) (i : Nat) (blks : List EncBlock) (body : Bytes),
+      Encrypt.blockStructs P v pk hh mks pl i = .ok blks → Encrypt.encodeBlocks v blks = .ok body →
+      body = (pl.zipIdx i).flatMap (fun x => encPacket P (layoutOf v) {} pk hh mks x.2 x.1.1 x.1.2) := by
+  intro pl
+  induction pl with
+  | nil =>
+    intro i blks body h1 h2
+    simp only [Encrypt.blockStructs, Except.ok.injEq] at h1
+    subst h1
+    simp only [Encrypt.encodeBlocks, Except.ok.injEq] at h2
+    subst h2
+    rfl
+  | cons p pl ih =>
+    intro i blks body h1 h2
+    obtain ⟨c, f⟩ := p
+    simp only [Encrypt.blockStructs] at h1
+    split at h1
+    · rename_i b bs hb hbs
+      cases h1
+      simp only [Encrypt.encodeBlocks] at h2
+      split at h2
+      · rename_i val rest hval hrest
+        cases h2
+        rw [List.zipIdx_cons, List.flatMap_cons, ← ih (i + 1) bs rest hbs hrest,
+          encPacket_eq P v hv pk hh mks hmks i c f b val hb hval]
+      · cases h2
+      · cases h2
+    · cases h1
+    · cases h1
+
+theorem checkReceivers_ne_nil (rs : List Encrypt.Recipient) (h : Encrypt.checkReceivers rs = .ok ()) :
+    rs ≠ [] := by
+  rintro rfl
+  simp [Encrypt.checkReceivers] at h
+
+theorem encHeader_eq (P : Prims) (v : Version) (hv : v = v1 ∨ v = v2) (sender : Option Bytes)
+    (eph pk : Bytes) (rs : List Encrypt.Recipient) (hd : EncHeader)
+    (h : Encrypt.header P v sender eph pk rs = .ok hd) :
+    hd.toVal =
+      .arr ([.str ({} : Opts).formatName, versionVal (layoutOf v) {},
+        .int ((({} : Opts).typ).getD sModeEncryption),
+        .bin (P.boxPub eph), .bin (P.sbSeal pk sNonceSenderKey (P.boxPub (sender.getD eph))),
+        .arr (rs.zipIdx.map (fun (r, i) => encRecipientVal P (layoutOf v) {} eph pk i r))] ++
+        ({} : Opts).headerExtras) := by
+  simp only [Encrypt.header] at h
+  split at h
+  · cases h
+  · rename_i es hes
+    cases h
+    rw [versionVal_layoutOf v hv]
+    simp only [EncHeader.toVal, encReceivers_eq P v hv eph pk rs 0 es hes, c_senderKey, c_format,
+      List.append_nil]
+    rfl
 
 /-- **encryption**: `Seal`'s bytes = the reference sender's bytes -/
 theorem spec_eq_encryption (P : Prims) (bs : Nat) (v : Version) (hv : v = v1 ∨ v = v2)
     (sender : Option Bytes) (rs : List Encrypt.Recipient) (eph pk pt out : Bytes)
     (h : Encrypt.sealWith P bs v sender rs eph pk pt = .ok out) :
     out = Spec.encodePlan P (layoutOf v) {} sender rs eph pk (Encrypt.chunkPlan v bs pt) := by
-  sorry
+  simp only [Encrypt.sealWith, Encrypt.sealPackets, knownVersion_of' hv, Bool.not_true,
+    Bool.false_eq_true, if_false] at h
+  split at h
+  · cases h
+  · rename_i hdr hb blks hpk
+    split at hpk
+    · cases hpk
+    · rename_i hcheck
+      split at hpk
+      · cases hpk
+      · rename_i hd hhd
+        split at hpk
+        · cases hpk
+        · rename_i mks hmks
+          split at hpk
+          · cases hpk
+          · rename_i blks' hblks
+            cases hpk
+            split at h
+            · cases h
+            · rename_i body hbody
+              cases h
+              have hrs := checkReceivers_ne_nil rs hcheck
+              have hmk := encMacKeys_eq P v hv _ _ _ rs 0 mks hmks
+              have hne : mks ≠ [] := by
+                rw [hmk]
+                cases rs with
+                | nil => exact absurd rfl hrs
+                | cons r rs => simp
+              rw [encBlocks_eq P v hv pk _ mks hne _ 0 blks body hblks hbody, hmk,
+                encHeader_eq P v hv sender eph pk rs hdr hhd]
+              rfl
+
+/-! ### signatures -/
+
+theorem sigHeader_eq (v : Version) (hv : v = v1 ∨ v = v2) (typ : Int) (pub nonce : Bytes) :
+    sigHeaderBytes (layoutOf v) {} typ pub nonce = Msgpack.encode (Sign.header v pub typ nonce).toVal := by
+  unfold sigHeaderBytes
+  rw [versionVal_layoutOf v hv]
+  simp only [SigHeader.toVal, Sign.header, c_format, List.append_nil, Option.getD_none]
+
+theorem attPacket_eq (P : Prims) (v : Version) (hv : v = v1 ∨ v = v2) (signer hh : Bytes) (i : Nat)
+    (c : Bytes) (f : Bool) (b : SigBlock) (val : Val)
+    (hb : Sign.blockStruct P v signer hh i c f = .ok b)
+    (hval : sigBlockVal v b.sig b.chunk b.final = .ok val) :
+    Msgpack.encode val = attPacket P (layoutOf v) {} signer hh i c f := by
+  rcases hv with rfl | rfl
+  · simp only [Sign.blockStruct, attachedSignatureInput, show v1.major = 1 from rfl, if_true,
+      Except.ok.injEq] at hb
+    subst hb
+    simp only [sigBlockVal, if_true, Except.ok.injEq] at hval
+    subst hval
+    simp only [attPacket, layoutOf_v1, if_true, c_sigAtt, List.append_nil]
+  · simp only [Sign.blockStruct, attachedSignatureInput, show v2.major = 2 from rfl,
+      show ¬ ((2 : Int) = 1) by decide, if_true, if_false, Except.ok.injEq] at hb
+    subst hb
+    simp only [sigBlockVal, if_neg v2_ne_v1, if_true, Except.ok.injEq] at hval
+    subst hval
+    simp only [attPacket, layoutOf_v2, show ¬ ((2 : Nat) = 1) by decide, if_false, c_sigAtt,
+      List.append_nil]
+    rfl
+
+theorem attBlocks_eq (P : Prims) (v : Version) (hv : v = v1 ∨ v = v2) (signer hh : Bytes) :
+    ∀ (pl : List (Bytes × Bool)) (i : Nat) (blks : List SigBlock) (body : Bytes),
+      Sign.blockStructs P v signer hh pl i = .ok blks → Sign.encodeBlocks v blks = .ok body →
+      body = (pl.zipIdx i).flatMap (fun x => attPacket P (layoutOf v) {} signer hh x.2 x.1.1 x.1.2) := by
+  intro pl
+  induction pl with
+  | nil =>
+    intro i blks body h1 h2
+    simp only [Sign.blockStructs, Except.ok.injEq] at h1
+    subst h1
+    simp only [Sign.encodeBlocks, Except.ok.injEq] at h2
+    subst h2
+    rfl
+  | cons p pl ih =>
+    intro i blks body h1 h2
+    obtain ⟨c, f⟩ := p
+    simp only [Sign.blockStructs] at h1
+    split at h1
+    · rename_i b bs hb hbs
+      cases h1
+      simp only [Sign.encodeBlocks] at h2
+      split at h2
+      · rename_i val rest hval hrest
+        cases h2
+        rw [List.zipIdx_cons, List.flatMap_cons, ← ih (i + 1) bs rest hbs hrest,
+          attPacket_eq P v hv signer hh i c f b val hb hval]
+      · cases h2
+      · cases h2
+    · cases h1
+    · cases h1
 
 /-- **attached signatures** (for whatever header nonce was drawn) -/
 theorem spec_eq_attached (P : Prims) (bs : Nat) (v : Version) (hv : v = v1 ∨ v = v2)
     (signer nonce msg out : Bytes)
     (h : Sign.attachedWith P bs v signer nonce msg = .ok out) :
     out = Spec.attachedPlan P (layoutOf v) {} signer nonce (Encrypt.chunkPlan v bs msg) := by
-  sorry
+  simp only [Sign.attachedWith, Sign.attachedPackets, knownVersion_of' hv, Bool.not_true,
+    Bool.false_eq_true, if_false] at h
+  split at h
+  · cases h
+  · rename_i hdr hb blks hpk
+    split at hpk
+    · cases hpk
+    · rename_i blks' hblks
+      cases hpk
+      split at h
+      · cases h
+      · rename_i body hbody
+        cases h
+        have := attBlocks_eq P v hv signer _ _ 0 blks body hblks hbody
+        rw [this]
+        simp only [attachedPlan, sigHeader_eq v hv, headerPacket, mtAttached, sModeAttached]
+        rfl
 
 /-- **detached signatures** -/
 theorem spec_eq_detached (P : Prims) (v : Version) (hv : v = v1 ∨ v = v2) (signer nonce msg out : Bytes)
     (h : Sign.detachedWith P v signer nonce msg = .ok out) :
     out = Spec.detached P (layoutOf v) {} signer nonce msg := by
-  sorry
+  simp only [Sign.detachedWith, knownVersion_of' hv, Bool.not_true, Bool.false_eq_true, if_false,
+    Except.ok.injEq] at h
+  rw [← h]
+  simp only [Spec.detached, sigHeader_eq v hv, headerPacket, detachedSignatureInput,
+    detachedSignatureInputFromHash, c_sigDet]
+  rfl
+
+/-! ### signcryption -/
+
+theorem scRecipient_eq (P : Prims) (eph pk : Bytes) (i : Nat) (r : Signcrypt.Recipient) :
+    scRecipientVal P {} eph pk i r = (Signcrypt.receiverEntry P eph pk i r).toVal := by
+  cases r with
+  | box pub =>
+    simp only [scRecipientVal, Signcrypt.receiverEntry, RecvKeys.toVal, optBin,
+      Signcrypt.derivedKeyFromBoxKeys, Signcrypt.keyIdentifier, c_recip, c_derived, c_ctxBox,
+      List.append_nil]
+  | sym key ident =>
+    simp only [scRecipientVal, Signcrypt.receiverEntry, RecvKeys.toVal, optBin,
+      Signcrypt.symDerivedKey, c_recip, c_ctxSym, List.append_nil]
+
+theorem scReceivers_eq (P : Prims) (eph pk : Bytes) :
+    ∀ (rs : List Signcrypt.Recipient) (i : Nat),
+      (Signcrypt.receiverEntries P eph pk rs i).map RecvKeys.toVal =
+        (rs.zipIdx i).map (fun x => scRecipientVal P {} eph pk x.2 x.1) := by
+  intro rs
+  induction rs with
+  | nil => intro i; rfl
+  | cons r rs ih =>
+    intro i
+    simp only [Signcrypt.receiverEntries, List.map_cons, List.zipIdx_cons, ih (i + 1), scRecipient_eq]
+
+theorem scHeader_eq (P : Prims) (sender : Option Bytes) (eph pk : Bytes) (rs : List Signcrypt.Recipient) :
+    (Signcrypt.header P sender eph pk rs).toVal =
+      .arr ([.str ({} : Opts).formatName, versionVal 2 {}, .int ((({} : Opts).typ).getD sModeSigncryption),
+        .bin (P.boxPub eph),
+        .bin (P.sbSeal pk sNonceSenderKey (match sender with | none => zeros 32 | some s => P.sigPub s)),
+        .arr (rs.zipIdx.map (fun (r, i) => scRecipientVal P {} eph pk i r))] ++ ({} : Opts).headerExtras) := by
+  simp only [Signcrypt.header, EncHeader.toVal, scReceivers_eq, c_senderKey, c_format, List.append_nil]
+  rfl
+
+theorem scPacket_eq (P : Prims) (sender : Option Bytes) (pk hh : Bytes) (i : Nat) (c : Bytes) (f : Bool)
+    (b : SigncryptBlock) (hb : Signcrypt.blockStruct P sender pk hh i c f = .ok b) :
+    Msgpack.encode (signcryptBlockVal b.ct b.final) = scPacket P {} sender pk hh i c f := by
+  simp only [Signcrypt.blockStruct] at hb
+  split at hb
+  · cases hb
+  · cases hb
+    simp only [scPacket, signcryptBlockVal, c_hashNonce, c_final, c_sigEnc, List.append_nil,
+      Nonce.chunkSigncryption, signcryptionSignatureInput]
+    cases sender <;> rfl
+
+theorem scBlocks_eq (P : Prims) (sender : Option Bytes) (pk hh : Bytes) :
+    ∀ (pl : List (Bytes × Bool)) (i : Nat) (blks : List SigncryptBlock),
+      Signcrypt.blockStructs P sender pk hh pl i = .ok blks →
+      Signcrypt.encodeBlocks blks =
+        (pl.zipIdx i).flatMap (fun x => scPacket P {} sender pk hh x.2 x.1.1 x.1.2) := by
+  intro pl
+  induction pl with
+  | nil =>
+    intro i blks h1
+    simp only [Signcrypt.blockStructs, Except.ok.injEq] at h1
+    subst h1
+    rfl
+  | cons p pl ih =>
+    intro i blks h1
+    obtain ⟨c, f⟩ := p
+    simp only [Signcrypt.blockStructs] at h1
+    split at h1
+    · rename_i b bs hb hbs
+      cases h1
+      rw [List.zipIdx_cons, List.flatMap_cons, ← ih (i + 1) bs hbs,
+        ← scPacket_eq P sender pk hh i c f b hb]
+      rfl
+    · cases h1
+    · cases h1
 
 /-- **signcryption** -/
 theorem spec_eq_signcryption (P : Prims) (bs : Nat) (sender : Option Bytes) (rs : List Signcrypt.Recipient)
     (eph pk pt out : Bytes)
     (h : Signcrypt.sealWith P bs sender rs eph pk pt = .ok out) :
     out = Spec.signcryptPlan P {} sender rs eph pk (Encrypt.chunkPlan v2 bs pt) := by
-  sorry
+  simp only [Signcrypt.sealWith, Signcrypt.sealPackets] at h
+  split at h
+  · cases h
+  · rename_i hdr hb blks hpk
+    split at hpk
+    · cases hpk
+    · split at hpk
+      · cases hpk
+      · rename_i blks' hblks
+        cases hpk
+        cases h
+        rw [scBlocks_eq P sender pk _ _ 0 blks hblks, scHeader_eq]
+        rfl
 
 /-- the Go sender's chunk plan is a legal one for the specification: chunks of at
     most 1 MiB, final marker on the last packet only -/
@@ -67,11 +456,16 @@ theorem go_plan_legal (v : Version) (pt : Bytes) :
     (∀ p ∈ Encrypt.chunkPlan v blockSize pt, p.1.length ≤ 1048576) ∧
     (∃ pre c, Encrypt.chunkPlan v blockSize pt = pre ++ [(c, true)] ∧ ∀ p ∈ pre, p.2 = false) ∧
     ((Encrypt.chunkPlan v blockSize pt).map (·.1)).flatten = pt := by
-  sorry
+  have hbs : blockSize = 1048576 := by decide
+  refine ⟨?_, chunkPlan_final v blockSize pt, chunkPlan_flatten v blockSize pt⟩
+  intro p hp
+  have := chunkPlan_size v blockSize (by rw [hbs]; decide) pt p hp
+  rw [hbs] at this
+  exact this
 
 /-- **known finding D10**: the header nonce the code draws is 16 bytes, the
     signing specifications say 32 -/
 theorem sig_nonce_len_differs : Sign.sigNonceLen = 16 ∧ Spec.sSigNonceLen = 32 ∧ Sign.sigNonceLen ≠ Spec.sSigNonceLen := by
-  sorry
+  decide
 
 end Saltpack.Proofs
